@@ -155,7 +155,14 @@ TWCCShapes ==
     MkTWCC(7, << Sv2(<< 2, 2, 2, 2, 2, 2, 2 >>) >>, [i \in 1..7 |-> Dl(2, 256 * i)], FALSE),
     MkTWCC(9, << Sv2(<< 1, 2, 3, 0, 1, 2, 3 >>), Rl(1, 2) >>, << Dl(1, 1), Dl(2, 2), Dl(1, 3), Dl(2, 4), Dl(1, 5), Dl(1, 6) >>, FALSE),
     MkTWCC(20, << Rl(0, 5), Sv1(<< 1, 0, 0, 0, 0, 0, 0, 0, 0, 0, 0, 0, 0, 1 >>), Rl(2, 1) >>, << Dl(1, 9), Dl(1, 8), Dl(2, -1) >>, TRUE),
-    MkTWCC(65535, << Rl(0, 8191), Rl(0, 8191), Rl(0, 8191), Rl(0, 8191), Rl(0, 8191), Rl(0, 8191), Rl(0, 8191), Rl(0, 8191), Rl(0, 7) >>, << >>, FALSE) }
+    MkTWCC(65535, << Rl(0, 8191), Rl(0, 8191), Rl(0, 8191), Rl(0, 8191), Rl(0, 8191), Rl(0, 8191), Rl(0, 8191), Rl(0, 8191), Rl(0, 7) >>, << >>, FALSE),
+    \* status counts near 2^16 with a final run that overshoots: processed + run length passes 65535
+    MkTWCC(57440, << Rl(0, 8191), Rl(0, 8191), Rl(0, 8191), Rl(0, 8191), Rl(0, 8191), Rl(0, 8191), Rl(0, 8191), Rl(0, 100), Rl(1, 8191) >>,
+           << Dl(1, 1), Dl(1, 2), Dl(1, 3) >>, FALSE),
+    MkTWCC(65535, << Rl(0, 8191), Rl(0, 8191), Rl(0, 8191), Rl(0, 8191), Rl(0, 8191), Rl(0, 8191), Rl(0, 8191), Rl(3, 8191), Rl(2, 8191) >>,
+           [i \in 1..7 |-> Dl(2, i - 4)], TRUE),
+    MkTWCC(65530, << Rl(0, 8191), Rl(0, 8191), Rl(0, 8191), Rl(0, 8191), Rl(0, 8191), Rl(0, 8191), Rl(0, 8191), Rl(0, 8191), Sv2(<< 1, 2 >>) >>,
+           << Dl(1, 9), Dl(2, -9) >>, FALSE) }
 TWCCDom ==
   TWCCShapes
   \cup { [v EXCEPT !.sender = s] : v \in {MkTWCC(1, << Rl(1, 1) >>, << Dl(1, 7) >>, FALSE)}, s \in U32Set }
